@@ -892,20 +892,31 @@ impl<'a> Checker<'a> {
         // and the caller must not have given up on an endless stream.
         if let Some(d) = divergence.as_mut() {
             if !d.labels.contains(&Label::Count) && obs.forks.len() == 1 {
+                // frontier: input already accounted for by earlier items (a token's end; an
+                // error's location, which is where its lexeme began)
                 let mut last_end = 0usize;
                 let mut regress: Option<usize> = None;
                 for (i, c) in obs.calls.iter().enumerate() {
-                    if let Item::Tok { start, end, .. } = &c.item {
-                        if start.byte < last_end && regress.is_none() {
-                            regress = Some(i);
+                    match &c.item {
+                        Item::Tok { start, end, .. } => {
+                            if start.byte < last_end && regress.is_none() {
+                                regress = Some(i);
+                            }
+                            last_end = last_end.max(end.byte);
                         }
-                        last_end = last_end.max(end.byte);
+                        Item::Invalid { at } | Item::Custom { at, .. } => {
+                            if at.byte < last_end && regress.is_none() {
+                                regress = Some(i);
+                            }
+                            last_end = last_end.max(at.byte);
+                        }
+                        _ => {}
                     }
                 }
                 if let Some(i) = regress {
                     d.labels.push(Label::Count);
                     d.note = format!(
-                        "{} | later in the same run (call {}): a token starts before the end of an earlier token - the lexer went back over input it had already reported",
+                        "{} | later in the same run (call {}): an item starts before input that earlier items had already accounted for - the lexer went back over reported input",
                         d.note, i
                     );
                 } else if obs.overrun {
